@@ -89,6 +89,81 @@ def gen_kill_map(rng):
     return km
 
 
+def gen_structured_kill_map(rng):
+    """Kill maps built by construction, not drawn uniformly.
+    interlock (70 %): p >= 2 "core" assertions without private mutants, every pair of cores shares a mutant that
+    only the two of them kill, every core shares one mutant with each of q >= 2 "late" assertions, every late
+    assertion has a private mutant.  Greedy picks all p + q, every core is covered by the rest of the selection, but
+    only as long as the other cores stay: the pruning pass may drop all cores but one.
+    edges (30 %): every mutant is killed by a random pair/triple of assertions, some assertions get private mutants."""
+    if rng.random() < 0.7:
+        p, q = rng.choice([2, 2, 2, 3]), rng.choice([2, 2, 3])
+        n = p + q
+        sets = [set() for _ in range(n)]
+        m = 0
+        for i in range(p):
+            for j in range(i + 1, p):
+                sets[i].add(m); sets[j].add(m); m += 1           # interlock mutants
+        for i in range(p):
+            for j in range(p, n):
+                sets[i].add(m); sets[j].add(m); m += 1           # core x late
+        for j in range(p, n):
+            sets[j].add(m); m += 1                               # private mutants of the late assertions
+        pool = [(a, b) for a in range(4) for b in range(4)]
+        keys = sorted(rng.sample(pool, n))
+        if rng.random() < 0.3:
+            rng.shuffle(keys)                                     # cores not necessarily first in key order
+        extra = []
+        if rng.random() < 0.3:
+            rest = [k for k in pool if k not in keys]
+            extra.append((rng.choice(rest), set() if rng.random() < 0.5 else set(rng.choice(sets))))
+    else:
+        n = rng.choice([4, 4, 5, 6, 7])
+        keys = rng.sample([(a, b) for a in range(4) for b in range(4)], n)
+        sets = [set() for _ in range(n)]
+        m = 0
+        for _ in range(rng.randrange(n, 2 * n + 3)):
+            for i in rng.sample(range(n), rng.choice([2, 2, 2, 3])):
+                sets[i].add(m)
+            m += 1
+        for i in rng.sample(range(n), rng.randrange(0, n - 1)):
+            sets[i].add(m)
+            m += 1
+        extra = []
+    if rng.random() < 0.3:                                        # relabel mutants
+        perm = list(range(m))
+        rng.shuffle(perm)
+        sets = [{perm[x] for x in st} for st in sets]
+        extra = [(k, {perm[x] for x in st}) for k, st in extra]
+    km = list(zip(keys, sets)) + extra
+    rng.shuffle(km)
+    return km
+
+
+def mutual_redundancy(km):
+    """Distribution statistic only (own greedy, ascending-key tie-break): does the greedy selection contain
+    two assertions that are each covered by the rest of the selection, but not once the other is gone?"""
+    d = {k: set(v) for k, v in km if v}
+    unc = set().union(*d.values()) if d else set()
+    keep = []
+    cand = dict(d)
+    while unc:
+        best = max(sorted(cand), key=lambda k: (len(cand[k] & unc), ), default=None)
+        best = next((k for k in sorted(cand) if len(cand[k] & unc) == len(cand[best] & unc)), None)
+        if best is None or not cand[best] & unc:
+            break
+        keep.append(best)
+        unc -= cand.pop(best)
+    def red(k, ks):
+        others = set().union(*[d[o] for o in ks if o != k]) if len(ks) > 1 else set()
+        return d[k] <= others
+    for a in keep:
+        for b in keep:
+            if a < b and red(a, keep) and red(b, keep) and not red(a, [k for k in keep if k != b]):
+                return True
+    return False
+
+
 def oracle_select(km, keep):
     """What the property demands of the selection: a subset that keeps the kill union.  (That no kept
     key is empty or redundant is proved of the model and tied by K2; it is not demanded here.)"""
@@ -386,6 +461,9 @@ def run(ctx: vlib.Ctx):
     corpus = json.loads((vlib.VERIF / "corpus" / "C21.json").read_text())
     pool = cf.ThreadPoolExecutor(max_workers=5 if ctx.quick else 10)
     futures = [pool.submit(R.launch, s) for s in specs]
+    stateful_spec = {"kind": "stateful", "scratch": f"/var/tmp/verif-C21-{os.getpid()}-stateful", "seed": ctx.rng.randrange(10**6),
+                     "rounds": 8 if ctx.quick else 60, "module": "c21_stateful_sut", "strategy": "-", "assertion_generation": "SIMPLE"}
+    stateful_future = pool.submit(R.launch, stateful_spec)
 
     import libcst as cst
 
@@ -408,6 +486,7 @@ def run(ctx: vlib.Ctx):
     kms = [[(tuple(k), set(v)) for k, v in c["kill_map"]] for c in corpus if c["kind"] == "select"]
     n_sel = 400 if ctx.quick else 4000
     kms += [gen_kill_map(ctx.rng) for _ in range(n_sel)]
+    kms += [gen_structured_kill_map(ctx.rng) for _ in range(n_sel)]
     for km in kms:
         keep = ag._select_minimal_assertions({k: set(v) for k, v in km})
         keep_sorted = sorted(keep)
@@ -417,6 +496,8 @@ def run(ctx: vlib.Ctx):
                  ("sel", kml), nontrivial=any(v for _, v in km))
         ctx.count("select:keys=%d" % min(len(km), 8))
         ctx.count("select:kept=%d" % min(len(keep), 6))
+        if len(km) >= 4 and mutual_redundancy(km):
+            ctx.count("select:mutual-redundancy")
         r = oracle_select(km, keep)
         if r:
             n_fail += 1
@@ -502,6 +583,18 @@ def run(ctx: vlib.Ctx):
                 ctx.fail(r[0], r[1], {"kind": "real-run", "spec": spec, "observation": obs})
             for km in obs["kmaps"]:
                 ctx.count("real:kill-map")
+    try:
+        sres = stateful_future.result(timeout=900)
+    except Exception as e:  # noqa: BLE001
+        sres = {"error": f"{type(e).__name__}: {e}", "fails": [], "stats": {}}
+    if sres["error"]:
+        ctx.broken("stateful-runs", "the stateful re-execution runs did not complete", {"error": sres["error"][:1500]})
+    for f in sres["fails"]:
+        n_fail += 1
+        ctx.fail(f["signature"], f["what"], f["replay"])
+    for k, v in sres["stats"].items():
+        real_stats[k] = real_stats.get(k, 0) + v
+    ctx.case_seen(("stateful", stateful_spec["seed"]), nontrivial=sres["stats"].get("stateful_raise_on_rerun", 0) > 0)
     pool.shutdown(wait=False, cancel_futures=True)
     ctx.leg("S", oracle_failures=n_fail, real_runs=n_real_ok, real=real_stats)
     if n_real_ok < max(1, n_real // 2):
@@ -554,7 +647,7 @@ def replay(ctx, path):
         print("oracle:", oracle_run(d["observation"]))
         print("model agrees:", ctx.coq_eval(IMPORTS, "C21.check_case (%s)" % c_run(d["observation"])))
     elif "spec" in d:
-        spec = dict(d["spec"], scratch=f"/var/tmp/verif-C21-replay-{os.getpid()}")
+        spec = dict(d["spec"], scratch=f"/var/tmp/verif-C21-replay-{os.getpid()}")   # kind "stateful" is dispatched by the worker
         res = R.launch(spec)
         print("failures:", json.dumps(res["fails"], indent=1, default=repr)[:4000])
         print("stats:", res["stats"], "error:", res["error"])
